@@ -27,7 +27,7 @@ func init() {
 				n = 10000
 			}
 			return fw.Meta{N: n, Level: "exploration", Chunk: 5, CaseTimeoutS: 240, MinNT: 80,
-				Rule:        "one case = one seeded program of 20..120 calls applied to two fresh databases, one through Put/Get/Delete (strings) and one through PutBytes/GetBytes/DeleteBytes, with keys and values drawn from {nil, empty, 1 byte, non-UTF-8, ordinary, 64 KiB}; one handle in three receives Put/Get/Delete/Close calls BEFORE its Open (all must be refused, the handle must then open and work normally); per call the accept/reject decision and result of both flavours must agree and Put with an empty key or value must answer ErrEmptyKeyValue; a reference map that ignores every call that returned an error is compared with a read of all keys (through both flavours) directly after each call, before/after forced rotation+flush, and before/after clean Close+re-Open (reads must not change merely because of a flush or restart). Every 52nd case instead runs a byte-API program (with rejected calls and, in half of its sessions, one Put whose WAL write fails half way through RLIMIT_FSIZE) in a traced sub-process and recovers crash images taken after rejected calls (see C02 engine). Non-trivial: >=1 rejected call, >=1 accepted call, >=1 flush and >=1 reopen; distinct by program hash",
+				Rule:        "one case = one seeded program of 20..120 calls applied to two fresh databases, one through Put/Get/Delete (strings) and one through PutBytes/GetBytes/DeleteBytes, with keys and values drawn from {nil, empty, 1 byte, non-UTF-8, ordinary, 64 KiB}; one handle in three receives Put/Get/Delete/Close calls BEFORE its Open (all must be refused, the handle must then open and work normally); per call the accept/reject decision and result of both flavours must agree and Put with an empty key or value must answer ErrEmptyKeyValue; a reference map that ignores every call that returned an error is compared with a read of all keys (through both flavours) directly after each call, before/after forced rotation+flush, and before/after clean Close+re-Open (reads must not change merely because of a flush or restart). Every 52nd case instead runs a byte-API program (with rejected calls and, in half of its sessions, one Put whose WAL write fails half way through RLIMIT_FSIZE) in a traced sub-process and recovers crash images taken after rejected calls (see C02 engine). Non-trivial: >=1 rejected call, >=1 accepted call, >=1 flush and >=1 reopen; distinct by program hash A Delete of a non-empty key that is refused (outside sessions whose log cannot append) is a violation: Put accepts every non-empty key.",
 				MinObs:      map[string]int64{"calls_compared": 10000, "rejected_calls": 1500, "nil_arguments": 300, "transitions_flush": 300, "transitions_reopen": 300, "reads_compared": 50000, "calls_rejected_by_failing_wal": 100, "distinct_images_recovered": 800, "rejected_calls_in_traced_sessions": 50, "handles_called_before_open": 100, "puts_failed_by_a_wal_write_fault_in_traced_sessions": 2},
 				Assumptions: []string{"nil byte slices correspond to empty strings", "Delete/DeleteBytes with an empty key is not documented as rejected; only agreement between the flavours and absence of visible effect is required"},
 			}
